@@ -323,11 +323,10 @@ func envSeed() uint64 {
 	return 1
 }
 
-// raceEnvGlobal is set for race-tier checks: replays need the same GORACE settings,
-// and because the schedule is not seed-decided there, a replay is attempted several times.
-var raceEnvGlobal []string
-
-func replayFresh(bin, file, outDir string, tag string) (bool, map[string]any, error) {
+// replayFresh re-executes a replay file in a fresh process. raceEnv is non-nil for scenarios of
+// the race tier: replays need the same GORACE settings, and because the schedule is not
+// seed-decided there, a replay is attempted several times.
+func replayFresh(bin, file, outDir string, tag string, raceEnvGlobal []string) (bool, map[string]any, error) {
 	attempts := 1
 	if raceEnvGlobal != nil {
 		attempts = 6
@@ -368,18 +367,24 @@ func check(prop, tier string) int {
 	}
 	start := time.Now()
 	seed := envSeed()
-	b := build(prop+"-"+tier, plan.Race)
-	defer os.RemoveAll(b.dir)
-	buildS := time.Since(start).Seconds()
-
+	type phaseT struct {
+		race bool
+		scen []ScenPlan
+		b    *buildOut
+		gmp  int
+		env  []string
+	}
+	phases := []*phaseT{{race: plan.Race, scen: plan.Scenarios}}
+	if len(plan.Micro) > 0 {
+		phases = append(phases, &phaseT{scen: plan.Micro})
+	}
+	scenPhase := map[string]*phaseT{}
 	nWorkers := 16
 	if v := os.Getenv("VSIM_WORKERS"); v != "" {
 		if n, err := strconv.Atoi(v); err == nil && n > 0 {
 			nWorkers = n
 		}
 	}
-	// split every scenario range into chunks, deal them round-robin
-	jobs := make([]*Job, nWorkers)
 	replayDir := filepath.Join(verifRoot, "replays")
 	os.MkdirAll(replayDir, 0o755)
 	// replay files of earlier runs of this check are stale by definition
@@ -392,69 +397,78 @@ func check(prop, tier string) int {
 	if tier == "thorough" {
 		wall = plan.ThoroughWallS
 	}
-	for w := range jobs {
-		jobs[w] = &Job{Mode: "explore", Property: prop, Tier: tier, Seed: seed, Worker: w, WallS: wall,
-			Out: filepath.Join(b.dir, fmt.Sprintf("res-%d.json", w)), HashOut: filepath.Join(b.dir, fmt.Sprintf("hash-%d.bin", w)), ReplayDir: replayDir}
-	}
-	k := 0
-	for _, sp := range plan.Scenarios {
-		n := sp.Quick
-		if tier == "thorough" {
-			n = sp.Thorough
-		}
-		if n == 0 {
-			continue
-		}
-		chunk := n / uint64(nWorkers*4)
-		if chunk < 1 {
-			chunk = 1
-		}
-		for from := uint64(0); from < n; from += chunk {
-			to := from + chunk
-			if to > n {
-				to = n
-			}
-			j := jobs[k%nWorkers]
-			j.Scenarios = append(j.Scenarios, ScenarioRange{sp.Name, from, to})
-			k++
-		}
-	}
-	var wg sync.WaitGroup
-	results := make([]*Result, nWorkers)
-	errs := make([]error, nWorkers)
-	// One P per worker: inside a quiescence step of the system simulation the order of
-	// goroutines is the Go scheduler's (e.g. httputil's immediate-flush timer goroutine vs the
-	// handler finishing decides chunked vs Content-Length framing); with a single P that order
-	// is reproducible in practice, so exploration, minimisation and replay all run that way.
-	gmp := 1
-	if plan.Race {
-		gmp = 4
-	}
-	var raceEnv []string
-	if plan.Race {
-		raceEnv = []string{"GORACE=halt_on_error=0 exitcode=0 log_path=" + filepath.Join(b.dir, "race"), "VSIM_RACE_LOG=" + filepath.Join(b.dir, "race")}
-	}
-	raceEnvGlobal = raceEnv
-	for w := range jobs {
-		if len(jobs[w].Scenarios) == 0 {
-			continue
-		}
-		wg.Add(1)
-		go func(w int) {
-			defer wg.Done()
-			results[w], errs[w] = runWorker(b.bin, jobs[w], gmp, raceEnv...)
-		}(w)
-	}
-	wg.Wait()
 	m := newMerged()
-	for w := range jobs {
-		if errs[w] != nil {
-			trouble("%v", errs[w])
+	buildS := 0.0
+	for pi, ph := range phases {
+		t0 := time.Now()
+		ph.b = build(fmt.Sprintf("%s-%s-p%d", prop, tier, pi), ph.race)
+		defer os.RemoveAll(ph.b.dir)
+		buildS += time.Since(t0).Seconds()
+		for _, sp := range ph.scen {
+			scenPhase[sp.Name] = ph
 		}
-		if results[w] != nil {
-			m.add(results[w], jobs[w].HashOut)
+		// One P per worker: inside a quiescence step of the system simulation the order of
+		// goroutines is the Go scheduler's (e.g. httputil's immediate-flush timer goroutine vs the
+		// handler finishing decides chunked vs Content-Length framing); with a single P that order
+		// is reproducible in practice, so exploration, minimisation and replay all run that way.
+		ph.gmp = 1
+		if ph.race {
+			ph.gmp = 4
+			ph.env = []string{"GORACE=halt_on_error=0 exitcode=0 log_path=" + filepath.Join(ph.b.dir, "race"), "VSIM_RACE_LOG=" + filepath.Join(ph.b.dir, "race")}
+		}
+		// split every scenario range into chunks, deal them round-robin
+		jobs := make([]*Job, nWorkers)
+		for w := range jobs {
+			jobs[w] = &Job{Mode: "explore", Property: prop, Tier: tier, Seed: seed, Worker: w, WallS: wall,
+				Out: filepath.Join(ph.b.dir, fmt.Sprintf("res-%d.json", w)), HashOut: filepath.Join(ph.b.dir, fmt.Sprintf("hash-%d.bin", w)), ReplayDir: replayDir}
+		}
+		k := 0
+		for _, sp := range ph.scen {
+			n := sp.Quick
+			if tier == "thorough" {
+				n = sp.Thorough
+			}
+			if n == 0 {
+				continue
+			}
+			chunk := n / uint64(nWorkers*4)
+			if chunk < 1 {
+				chunk = 1
+			}
+			for from := uint64(0); from < n; from += chunk {
+				to := from + chunk
+				if to > n {
+					to = n
+				}
+				j := jobs[k%nWorkers]
+				j.Scenarios = append(j.Scenarios, ScenarioRange{sp.Name, from, to})
+				k++
+			}
+		}
+		var wg sync.WaitGroup
+		results := make([]*Result, nWorkers)
+		errs := make([]error, nWorkers)
+		for w := range jobs {
+			if len(jobs[w].Scenarios) == 0 {
+				continue
+			}
+			wg.Add(1)
+			go func(w int) {
+				defer wg.Done()
+				results[w], errs[w] = runWorker(ph.b.bin, jobs[w], ph.gmp, ph.env...)
+			}(w)
+		}
+		wg.Wait()
+		for w := range jobs {
+			if errs[w] != nil {
+				trouble("%v", errs[w])
+			}
+			if results[w] != nil {
+				m.add(results[w], jobs[w].HashOut)
+			}
 		}
 	}
+	b := phases[0].b
 	if len(m.harnessErrs) > 0 {
 		n := len(m.harnessErrs)
 		if n > 3 {
@@ -513,16 +527,13 @@ func check(prop, tier string) int {
 				defer mwg.Done()
 				sem <- struct{}{}
 				defer func() { <-sem }()
-				out := filepath.Join(b.dir, fmt.Sprintf("min-%d.json", ki))
+				ph := scenPhase[v.Scenario]
+				out := filepath.Join(ph.b.dir, fmt.Sprintf("min-%d.json", ki))
 				budget := 20.0
 				if tier == "thorough" {
 					budget = 60
 				}
-				mp := 1
-				if plan.Race {
-					mp = 4
-				}
-				_, err := runWorker(b.bin, &Job{Mode: "minimise", ReplayFile: v.ReplayPath, Out: out, WallS: budget}, mp, raceEnv...)
+				_, err := runWorker(ph.b.bin, &Job{Mode: "minimise", ReplayFile: v.ReplayPath, Out: out, WallS: budget}, ph.gmp, ph.env...)
 				mmu.Lock()
 				defer mmu.Unlock()
 				if err != nil {
@@ -556,11 +567,12 @@ func check(prop, tier string) int {
 	for _, k := range keys {
 		v := reps[k]
 		total := totals[k]
-		rep, _, err := replayFresh(b.bin, v.ReplayPath, b.dir, fmt.Sprintf("%d", indexOf(keys, k)))
+		ph := scenPhase[v.Scenario]
+		rep, _, err := replayFresh(ph.b.bin, v.ReplayPath, ph.b.dir, fmt.Sprintf("%d", indexOf(keys, k)), ph.env)
 		if err != nil {
 			trouble("replay of %s failed to run: %v", v.ReplayPath, err)
 		}
-		if !rep && plan.Race {
+		if !rep && ph.race {
 			// race tier: the workload is seed-determined, the schedule is not; the detector's
 			// report (kept in the replay file) stands on its own
 			fmt.Printf("NOTE property=%s fingerprint=%s: the race report did not recur in 72 replays of %s (schedule not seed-decided)\n", v.Property, v.Fingerprint, v.ReplayPath)
@@ -694,19 +706,26 @@ func replayCmd(file string) int {
 	var rf struct {
 		Property    string `json:"property"`
 		Fingerprint string `json:"fingerprint"`
+		Scenario    string `json:"scenario"`
 	}
 	json.Unmarshal(data, &rf)
 	race := false
-	if p, ok := plans[rf.Property]; ok {
-		race = p.Race
+	if p, ok := plans[rf.Property]; ok && p.Race {
+		race = true
+		for _, sp := range p.Micro {
+			if sp.Name == rf.Scenario {
+				race = false
+			}
+		}
 	}
 	b := build("replay", race)
 	defer os.RemoveAll(b.dir)
+	var raceEnvGlobal []string
 	if race {
 		raceEnvGlobal = []string{"GORACE=halt_on_error=0 exitcode=0 log_path=" + filepath.Join(b.dir, "race"), "VSIM_RACE_LOG=" + filepath.Join(b.dir, "race")}
 	}
 	abs, _ := filepath.Abs(file)
-	rep, res, err := replayFresh(b.bin, abs, b.dir, "cmd")
+	rep, res, err := replayFresh(b.bin, abs, b.dir, "cmd", raceEnvGlobal)
 	if err != nil {
 		trouble("%v", err)
 	}
@@ -742,10 +761,11 @@ func selftestDeterminism(args []string) int {
 	if len(scen) == 0 {
 		seen := map[string]bool{}
 		for _, p := range plans {
+			list := p.Scenarios
 			if p.Race {
-				continue
+				list = p.Micro
 			}
-			for _, s := range p.Scenarios {
+			for _, s := range list {
 				if !seen[s.Name] {
 					seen[s.Name] = true
 					scen = append(scen, s.Name)
